@@ -140,6 +140,7 @@ fn logical_for(s: &Scenario, old: bool) -> Logical {
         },
         dedup: false,
         aux_seed: rng.next_u64(),
+        opts: Default::default(),
     }
 }
 
